@@ -164,7 +164,7 @@ def runAigerCase (line : String) : String × String :=
   let l := parseTy (field fs "ty")
   let mode := field fs "mode"
   let ls := field fs "ls" == "1"
-  let full := unhex (field fs "d")
+  let full := dataField (field fs "d")
   let (data, fault) := match (field fs "k").toNat? with
     | some k => (full.take k, true)
     | none => (full, false)
